@@ -131,7 +131,37 @@ def gen_model(rng, idx):
     for u in inputs:
         series[u] = [str(dyc(-4, 4)) for _ in range(sum(spec.get("multiples", [1] * nsteps)) + 1)]
     spec["series"] = series
+    initial_state_features(spec, force=idx < 2)
     return spec
+
+
+def initial_state_features(spec, force=False):
+    """initial_state.csv next to the model (own random stream, derived from the model): a value for a state
+    whose start is fixed (possibly at 0) must not replace the fixed start; a state whose start is left at its
+    default takes the value from the file (given under its own name or under a negated alias)"""
+    import random
+    r2 = random.Random(json.dumps(spec, sort_keys=True, default=str))
+    fixed_states = [v for v in spec["states"] if v.get("fixed")]
+    if not fixed_states or (r2.random() < 0.5 and not force):
+        return
+    ini = {}
+    st = r2.choice(fixed_states)
+    if r2.random() < 0.6 or force:
+        st["start"] = "0"
+    ini[st["name"]] = str(Fraction(r2.randint(1, 16), 4))
+    others = [v for v in fixed_states if v is not st]
+    if others and r2.random() < 0.7:
+        fr = others[0]
+        val = Fraction(r2.randint(-16, 16), 4) or Fraction(5, 4)
+        fr.pop("start")
+        fr.pop("fixed")
+        al = [(a, sign) for a, tgt, sign in spec["aliases"] if tgt == fr["name"]]
+        if al and r2.random() < 0.7:
+            ini[al[0][0]] = str(al[0][1] * val)
+        else:
+            ini[fr["name"]] = str(val)
+        spec["free_start"] = {fr["name"]: str(val)}
+    spec["initial_state_csv"] = ini
 
 
 def run_model(spec):
@@ -151,6 +181,8 @@ def run_model(spec):
             os.makedirs(d)
         mo.write_model(mdl, spec)
         mo.write_timeseries_csv(os.path.join(inp, "timeseries_import.csv"), T0, spec["dt"], spec["series"])
+        if spec.get("initial_state_csv"):
+            mo.write_row_csv(os.path.join(inp, "initial_state.csv"), spec["initial_state_csv"])
         kwargs = dict(model_folder=mdl, model_name=spec["name"], input_folder=inp, output_folder=outp)
         if spec["delays"]:
             kwargs["fixed_dt"] = float(spec["dt"])
@@ -374,6 +406,10 @@ def run(ctx):
             if v.get("fixed") and abs(obs[0][v["name"]] - float(Fraction(v["start"]))) > 1e-7:
                 ctx.violation("sim/fixed-start", {"spec": spec, "variable": v["name"], "value": obs[0][v["name"]]},
                               what="fixed start value of %s not honoured at t0" % v["name"])
+        for nm, val in spec.get("free_start", {}).items():
+            if abs(obs[0][nm] - float(Fraction(val))) > 1e-7:
+                ctx.violation("sim/initial-state-file", {"spec": spec, "variable": nm, "value": obs[0][nm], "initial_state_csv": spec["initial_state_csv"]},
+                              what="%s (start left at its default) is %r at t0, initial_state.csv gives %s" % (nm, obs[0][nm], val))
         # a user-defined extra variable is read in physical units at every step
         if spec.get("extra_nominal"):
             x0n = spec["states"][0]["name"]
